@@ -1548,9 +1548,10 @@ fn exec_pfloat_r<T: SimFloat, const F: u128>(radix: u8, text: &[u8], expect: u64
                 Ok(v) if v.to_b() == expect => {},
                 r => out.fail("C05", format!("returned {}, the exact value is {:#x}", show_f(r), expect)),
             }
-            match &p {
-                Ok((v, n)) if v.to_b() == expect && *n == text.len() => {},
-                r => out.fail("C11", format!("partial parse returned {}, complete {}", show_fp(r), show_f(&c))),
+            match (&c, &p) {
+                (Ok(v), Ok((w, n))) if v.to_b() == w.to_b() && *n == text.len() => {},
+                (Err(_), Err(_)) => {},
+                (_, r) => out.fail("C11", format!("partial parse returned {}, complete {}", show_fp(r), show_f(&c))),
             }
         },
         (c, p) => {
